@@ -6,6 +6,7 @@ import RdVerif.Model.Entry
 import RdVerif.Model.Interval
 import RdVerif.Model.Fractions
 import RdVerif.Model.Units
+import RdVerif.Model.DriverInv
 import RdVerif.Gen.Icrp107.Data
 
 namespace RdVerif.Driver
@@ -35,6 +36,8 @@ def handleNuclide : List String → Option String
 structure State where
   names : List (List Ch) := []
   stable : List (List Ch) := []
+  wF : World Float := DriverInv.emptyWorld
+  wQ : World Rat := DriverInv.emptyWorld
 
 def decAmount : String → Option AmountKind
   | "nonneg" => some .nonneg | "negative" => some .negative | "nan" => some .nan
@@ -118,6 +121,8 @@ def handle (st : State) (req : List String) : State × String :=
     | some u => (st, "ok " ++ (match kindOf (if cls == "S" then tablesS else tablesF) u with
         | .num => "num" | .activity => "activity" | .moles => "moles" | .mass => "mass" | .unknown => "unknown"))
     | none => (st, "bad-request")
+  | "w" :: "F" :: rest => let r := DriverInv.handle DriverInv.floatCodec st.wF rest; ({ st with wF := r.1 }, r.2)
+  | "w" :: "Q" :: rest => let r := DriverInv.handle DriverInv.ratCodec st.wQ rest; ({ st with wQ := r.1 }, r.2)
   | "set_names" :: ns =>
     match ns.mapM decCodes with
     | some l => ({ st with names := l }, s!"ok {l.length}")
